@@ -74,6 +74,7 @@ impl HashChecker {
     let mut hasher = Sha256::new();
     for entry in fs::read_dir(path)?.into_iter() {
       hasher.update(entry?.file_name().as_encoded_bytes());
+      hasher.update([0u8]); // Terminate each name (NUL cannot occur in a file name), so that names do not run together.
     }
     Ok(hasher.finalize().into())
   }
